@@ -60,6 +60,36 @@ def evaluate(case):
         if dd:
             return VIOL(dict(sgn, kind='rate', factor=1), 'repeating the original call after the re-rated calls changes the table: ' + dd,
                         evals=nev)
+    if not devs or devs == ('trough',):
+        # integer dtype (ADC counts) scaled by integer powers of two
+        isig = np.asarray(sig).astype(np.int64)
+        ib = compute_features(isig, o['fs'], o['f_range'], **kw)
+        for a in (2, 8):
+            d = compute_features(isig * a, o['fs'], o['f_range'], **kw)
+            nev += 2
+            exp = ib.copy()
+            for c in VOLT:
+                exp[c] = exp[c] * a
+            dd = diff_tables(d, exp, exact=True)
+            if dd:
+                return VIOL(dict(sgn, kind='scale', factor=a, dtype='int64'), 'scaling an integer signal by %d is not covariant: %s' % (a, dd),
+                            evals=nev)
+        # one Bycycle object, the caller's array scaled in place between two fits
+        from bycycle import Bycycle
+        buf = np.array(sig, dtype=float)
+        bm = Bycycle(center_extrema=kw['center_extrema'], thresholds=dict(kw['threshold_kwargs']))
+        bm.fit(buf, o['fs'], o['f_range'])
+        first = bm.df_features.copy()
+        buf *= 4.0
+        bm.fit(buf, o['fs'], o['f_range'])
+        nev += 2
+        exp = first.copy()
+        for c in VOLT:
+            exp[c] = exp[c] * 4.0
+        dd = diff_tables(bm.df_features, exp, exact=True)
+        if dd:
+            return VIOL(dict(sgn, kind='scale', factor=4.0, via='refit after in-place scaling'),
+                        'refitting the same object after the array was scaled in place is not covariant: ' + dd, evals=nev)
     nt = bool(base['is_burst'].any()) and base['volt_amp'].nunique() >= 2
     return OK(outcome=table_hash(base), nontrivial=nt, evals=nev)
 
